@@ -245,10 +245,91 @@ def r5(ctx):
             ctx.ok(f'Regions.{name}', 'binds a new list object')
 
 
+def _copy_stable(m, mod, expr):
+    """(stable?, description) of a value expression the library itself stores in a region's meta/visual: a copy of the
+    region (copy(), to_sky(), to_pixel(), rotate() all deep-copy meta and visual) must compare equal to the original,
+    so the value must compare by value (str, number, tuple/list of those) or survive deepcopy as the same object."""
+    if isinstance(expr, ast.Constant):
+        return True, f'constant {expr.value!r}'
+    if isinstance(expr, (ast.Tuple, ast.List)):
+        rs = [_copy_stable(m, mod, e) for e in expr.elts]
+        return all(r[0] for r in rs), 'sequence of ' + ', '.join(sorted({r[1] for r in rs}))
+    if isinstance(expr, ast.Call) and isinstance(expr.func, ast.Name) and expr.func.id in mod.classes:
+        ci = mod.classes[expr.func.id]
+        dc = m.method(ci, '__deepcopy__')
+        eq = m.method(ci, '__eq__')
+        if dc is not None:
+            rets = [n for n in ast.walk(dc.node) if isinstance(n, ast.Return)]
+            if rets and all(isinstance(r.value, ast.Name) and r.value.id == 'self' for r in rets):
+                return True, f'{ci.name} instance (deepcopy returns the object itself)'
+        if eq is not None:
+            return True, f'{ci.name} instance (defines __eq__)'
+        return False, f'{ci.name} instance without value equality'
+    if isinstance(expr, ast.Call):
+        return False, f'object built by {norm(expr.func)}(...) — compared by identity, rebuilt by deepcopy'
+    return False, f'`{norm(expr)[:60]}`'
+
+
+def r6(ctx):
+    """what the readers themselves put into meta/visual survives copying: the DS9 point symbols are translated to
+    matplotlib markers through a table; every marker a region can receive from it must be copy-stable, otherwise
+    region.copy() != region (and to_sky/to_pixel/rotate results differ from the original's visual)."""
+    from ..tb import tables
+    from . import ds9
+    from ..vg import DictV
+    m = ctx.model
+    par, make, lexers, raw, rmod = ds9.reader_funcs(m)
+    callees = []
+    for st in stmts_of(make.node):
+        if isinstance(st, ast.Assign) and isinstance(st.value, ast.Call):
+            for f in m.resolve_call(make, st.value) or ():
+                if f.module != make.module and f not in callees:
+                    callees.append(f)
+    ctx.need(len(callees) >= 2, make.qualname, 'metadata split/translation calls not found')
+    trans = callees[1]
+    core = next((mi for n, mi in m.modules.items() if n.endswith('io.ds9.core')), None)
+    ctx.need(core is not None, 'regions.io.ds9.core', 'module not found')
+    symtab = tables(m, core.name).env.get('ds9_valid_symbols')
+    if not isinstance(symtab, dict):
+        # the table refers to module objects: take its keys from the source
+        symtab = None
+        for n in ast.walk(ctx.src.parse(core.path)):
+            if isinstance(n, ast.Assign) and any(isinstance(t, ast.Name) and t.id == 'ds9_valid_symbols' for t in n.targets) \
+                    and isinstance(n.value, ast.Dict):
+                symtab = {k.value: v for k, v in zip(n.value.keys, n.value.values) if isinstance(k, ast.Constant)}
+    ctx.need(symtab and len(symtab) >= 5, 'ds9_valid_symbols', 'point symbol table not found')
+    tree = ctx.src.parse(core.path)
+    for sym in sorted(symtab):
+        construct = f'point={sym}'
+        v = Evaluator(m).call(trans, [Const('point'), DictV([{'point': Const(sym)}])], {})
+        ctx.need(isinstance(v, DictV) and 'marker' in v.keys(), construct, f'no marker produced: {show(v, 120)}')
+        mk = v.get('marker')
+        if isinstance(mk, Const):
+            ctx.ok(construct, f'marker {mk.v!r}: a string')
+            continue
+        ctx.need(isinstance(mk, App) and mk.name.startswith('global:'), construct, f'marker value not resolved: {show(mk, 120)}')
+        gname = mk.name.split('.')[-1]
+        defs = [n.value for n in ast.walk(tree) if isinstance(n, ast.Assign) and any(
+            isinstance(t, ast.Name) and t.id == gname for t in n.targets)]
+        ctx.need(defs, construct, f'no definition of {gname} found')
+        bad = [(d, _copy_stable(m, core, d)) for d in defs]
+        bad = [(d, r) for d, r in bad if not r[0]]
+        if bad:
+            d, r = bad[0]
+            ctx.bad(construct, 'marker-not-copy-stable',
+                    f'a DS9 point with point={sym} is read with visual[\'marker\'] = {gname}, an {r[1]}: region.copy() (and '
+                    'to_sky/to_pixel/rotate) deep-copy the visual dict, so the copy does not compare equal to the region and its '
+                    'marker is no longer found in the writer\'s symbol table (the copy is serialised without point=)',
+                    f'{core.path}:{gname}:{d.lineno}')
+        else:
+            ctx.ok(construct, f'marker {gname}: ' + '; '.join(sorted({_copy_stable(m, core, d)[1] for d in defs})))
+
+
 RULES = [
     RuleDef('R1', 'Region.copy: deep, complete, class-preserving (23 classes x 2)', r1, 41),
     RuleDef('R2', 'Region.__eq__ compares class and every field, never raises; __ne__ negates', r2, 25),
     RuleDef('R3', '_params = constructor parameters, each stored', r3, 23),
     RuleDef('R4', 'PixCoord.copy / Meta.copy deep; PixCoord.__eq__', r4, 3),
     RuleDef('R5', 'Regions slicing/copy bind a new list', r5, 2),
+    RuleDef('R6', 'values the DS9 reader stores in visual are copy-stable (point symbol markers)', r6, 5),
 ]
